@@ -139,6 +139,16 @@ CLAIMED = {
         "with independent readers and the feature lists validated by TLC against the cell function (ExportCells, ExportIndexes).",
    note="Third-party encoders/decoders trusted; rings compared up to start vertex and direction; shapefile attributes read by field position.",
    ref="5 C15"),
+ "C16": dict(
+   text="TLC checks that the byte stream fed to the hash (length-prefixed name, dtype, size, int32 shape, raw bytes, attribute "
+        "block per geometry variable, then module / class / version) is injective on a universe chosen so that plain concatenation "
+        "would collide (and does: PrefixesMatter), and that in the edit system on (geometry, other content) the stream changes iff "
+        "the geometry does; make_cache_key is run with a recording hash object on datasets of every convention and their variants "
+        "(five routes to the same dataset incl. save+reopen and fresh interpreters with other hash seeds; four non-geometry edits; "
+        "every kind of single geometry edit) and TLC parses the exact update() payload sequence against the input's geometry "
+        "variables and checks same geometry => same stream and key, different geometry => different key, key a function of the stream.",
+   note="blake2b trusted; marshal treated as opaque but required functional (known finding F7: it is not).",
+   ref="5 C16"),
  "C19": dict(
    text="TLC checks on the bounded universe that the specification's collection pairs every valid cell's outline with that cell's "
         "value (one patch per valid cell, none for holes) and that a variable with leftover dimensions has no collection; recorded "
